@@ -110,6 +110,7 @@ func GenBlockPlan(t *rapid.T, profile string, ops int) *BlockPlan {
 		p.NPropSlash = rapid.SampledFrom([]int{0, 0, 1, 2}).Draw(t, "n_prop_slash")
 		p.NAttSlash = rapid.SampledFrom([]int{0, 0, 1, 2}).Draw(t, "n_att_slash")
 		p.Surround = rapid.Bool().Draw(t, "surround")
+		p.SlashSpan = rapid.SampledFrom([]int{0, 0, 1, 1, 2}).Draw(t, "slash_span")
 		p.NExits = rapid.SampledFrom([]int{0, 0, 1, 3, 5}).Draw(t, "n_exits")
 		p.NBLSChanges = rapid.SampledFrom([]int{0, 1, 2}).Draw(t, "n_bls")
 		nq := rapid.SampledFrom([]int{0, 0, 1, 2, 4}).Draw(t, "n_queue")
